@@ -67,6 +67,12 @@ package discovery
 //@
 //@ func (*Member).HandleMessage
 //@   props C10 C07
+//@   on-call (*Member).handleMembershipMessage(mm, src, view, list):
+//@     assert [tag-of-sender] topicAndID.id == from && src == from
+//@   on-call (*Member).respondToQuery(mm, src, tt):
+//@     assert [tag-of-sender] topicAndID.id == from && src == from && tt.id == from
+//@   on-call (*Member).handleResponse(mm, src, list, view):
+//@     assert [tag-of-sender] topicAndID.id == from && src == from
 
 // ---- tags: the PRF input is the little-endian encoding of the member id (C13) -----------------------------------
 //@ func makePRF$1
